@@ -98,7 +98,7 @@ PROPS = {
         lean_props="Receptor.Props.C12",
         engines=[dict(engine="fw", pkg=NETC, test="TestVerifFw", n_quick=600, n_thorough=6000),
                  dict(engine="pkt", pkg=NETC, test="TestVerifPkt", n_quick=400, n_thorough=3000)],
-        corr_ops={"fw": ["parse"], "pkt": ["handle", "walk"]},
+        corr_ops={"fw": ["parse", "twonodes"], "pkt": ["handle", "walk"]},
         facts=["fw_errors_propagated", "fw_regex_minlen", "fw_regex_wrap", "fw_loop", "fw_before_dispatch"],
         trusted=["Go regexp: full syntax trusted; the correspondence uses a regex subset (literals, classes, '.', "
                  "concatenation, alternation, * + ?) rendered from ASTs, matched in Lean by a verified derivative matcher",
@@ -152,7 +152,7 @@ PROPS = {
         engines=[dict(engine="results", pkg="pkg/workceptor", test="TestVerifResults", n_quick=12, n_thorough=60),
                  dict(engine="mirror", pkg="pkg/workceptor", test="TestVerifMirror", n_quick=2, n_thorough=6)],
         corr_ops={"results": ["units"], "mirror": ["mirror"]},
-        facts=["res_end_cond", "res_nostdout_cond", "res_iscomplete", "res_buffer", "res_loop", "res_remote_offset", "res_remote_write"],
+        facts=["res_end_cond", "res_nostdout_cond", "res_iscomplete", "res_buffer", "res_loop", "res_remote_offset", "res_remote_write", "res_remote_sign"],
         trusted=["the unit's discipline: output is appended only before the final status, the recorded size never exceeds the file size and "
                  "the final status records the file size (what command.go's runner and STDoutWriter do; played by the harness)",
                  "the remote mirror (monitorRemoteStdout / monitorRemoteStatus) is proved on the model (mirror_prefix, mirror_completes), "
@@ -181,7 +181,7 @@ PROPS = {
         lean_props="Receptor.Props.C13",
         engines=[dict(engine="life", pkg="pkg/workceptor", test="TestVerifLife", n_quick=4, n_thorough=30, shardable=False)],
         corr_ops={"life": ["units"]},
-        facts=["life_cancel_order", "life_cancel_keeps_succeeded", "life_runner_writes", "life_start_order", "life_alloc_order", "life_release"],
+        facts=["life_cancel_order", "life_cancel_keeps_succeeded", "life_runner_writes", "life_start_order", "life_alloc_order", "life_release", "life_runner_mkdir"],
         trusted=["every status rewrite is an atomic read-modify-write (property C14) — the model's steps are whole rewrites",
                  "the rewrite log comes from an instrumented copy of /repo's current workunitbase.go injected with -overlay "
                  "(tools/check.py instrument_workunitbase + harness/overlay/pkg/workceptor/verif_hook.go); /repo itself carries no hook",
@@ -195,7 +195,7 @@ PROPS = {
         lean_props="Receptor.Props.C14",
         engines=[dict(engine="status", pkg="pkg/workceptor", test="TestVerifStatus", n_quick=40, n_thorough=400)],
         corr_ops={"status": ["run"]},
-        facts=["st_lock", "st_lock_name", "st_unlock", "st_save", "st_load", "st_update", "st_basic", "st_basic_cb", "st_stdout", "st_bwu", "st_io"],
+        facts=["st_lock", "st_lock_name", "st_unlock", "st_save", "st_load", "st_update", "st_basic", "st_basic_cb", "st_stdout", "st_bwu", "st_io", "st_removals"],
         trusted=["cmd/go/internal/lockedfile (flock) gives an exclusive lock across goroutines and processes and releases it on Close: "
                  "modelled as the `owner` field; exercised for real by goroutines and re-executed processes, not proved",
                  "a write(2) of the whole record followed by close is complete before the lock is released (no crash inside the run: "
